@@ -70,15 +70,22 @@ Definition dev_evs (l : list ev) : list dev_ev :=
 Definition opres_code (r : opres) : N :=
   match r with RErr => 0 | RDone _ => 1 | RPanic => 2 | RFault => 3 end.
 
+(* returns the per-op observations, the live windows, and whether the process died (an unguarded
+   dereference on an on-demand region faults: nothing after it is observed) *)
 Fixpoint model_ops (m : mode) (o : os) (g : xregion) (st : list (N * N)) (ops : list xop) {struct ops}
-  : list opobs * list (N * N) :=
+  : list opobs * list (N * N) * bool :=
   match ops with
-  | [] => ([], st)
+  | [] => ([], st, false)
   | op :: r =>
       let '(l, res) := run_op m o g op in
-      let st' := live_after st l in
-      let '(rest, stf) := model_ops m o g st' r in
-      ({| p_r := opres_code res; p_data := 1; p_live := N.of_nat (length st'); p_evs := dev_evs l |} :: rest, stf)
+      match res with
+      | RFault => ([{| p_r := 3; p_data := 0; p_live := 0; p_evs := [] |}], st, true)
+      | _ =>
+        let st' := live_after st l in
+        let '(rest, stf, died) := model_ops m o g st' r in
+        ({| p_r := opres_code res; p_data := 1; p_live := N.of_nat (length st'); p_evs := dev_evs l |} :: rest,
+         stf, died)
+      end
   end.
 
 Definition run_C17x (c : case17x) (ops : list xop) : obs17x :=
@@ -86,7 +93,8 @@ Definition run_C17x (c : case17x) (ops : list xop) : obs17x :=
   match xen_from_range m o (range17 c) with
   | Val (Ok g, l0) =>
       let st0 := live_after [] l0 in
-      let '(obs, st) := model_ops m o g st0 ops in
+      let '(obs, st, died) := model_ops m o g st0 ops in
+      if died then {| ox_built := 1; ox_ops := obs; ox_mapped_alive := 0; ox_mapped_end := 0; ox_live_end := 0 |} else
       let alive := match xr_kind g, xr_mapped g with
                    | XUnix, _ => 0 | _, Some (ms, _) => ms | _, None => 0 end in
       let lend := match xen_drop m o g with Val l => live_after st l | _ => st end in
